@@ -75,4 +75,14 @@ theorem hp_item_conds_src : hp_item_conds = "!ok | item.host != host" := by deci
 /-- The custom-filter cache is read under the profile's exact ID. -/
 theorem custom_get_args_src : custom_get_args = "c.ID" := by decide
 
+/-- `Profiles` stamps every delivered profile with the local time of its conversion (model `stampNow`;
+`Sync.step` `.sync`), not with anything taken from the request. -/
+theorem profiles_stamp_src :
+    profiles_stamp_args = "ctx, time.Now(), s.bindSet, s.errColl, s.logger, s.metrics, s.respSzEst" := by decide
+def profileCustomConf : String :=
+  "&filter.ConfigCustom{ ID: string(x.DnsId), UpdateTime: updTime, Rules: customRules, Enabled: len(customRules) > 0, }"
+/-- `toInternal`: the custom configuration is keyed by the profile's own ID, carries the stamp it was
+given, and is enabled exactly when there are rules (model `confOf`). -/
+theorem profile_custom_conf_src : profile_custom_conf = profileCustomConf := by decide
+
 end Agd.Tie.C12
